@@ -369,6 +369,13 @@ func (s *Server) newSocket(
 		socket.close(ReasonTransportError, err)
 		return nil
 	}
+
+	// Close may have run after this request passed the closed check in ServeHTTP,
+	// in which case closeAll did not see this socket.
+	if s.IsClosed() {
+		socket.Close()
+		return nil
+	}
 	return socket
 }
 
